@@ -276,6 +276,14 @@ WaitResult == [][\A t \in Threads :
 NoNotifier == \A t \in Threads : ~ONotifying(t)
 Consistent == NoNotifier => sl - wk = Cardinality({t \in Threads : Announced(t) /\ ~Acked(t)})
 QuietBalanced == (\A t \in Threads : ~InCall(t)) => (sl = wk /\ ws = 0 /\ lock = 0)
+(* no window for a lost wake-up: a thread about to sleep on the wait semaphore announced itself
+   (sleeping_count) *before* it gave the lock up -- a notifier that gets the lock in between
+   must find it counted *)
+AnnounceBeforeUnlock == \A t \in Threads :
+    (pend[t][1] = "ws" /\ pend[t][2] = "acq") =>
+        \E i, j \in 1..Len(hist[t]) : /\ i < j
+                                       /\ hist[t][i][1] = "sl" /\ hist[t][i][2] = "rel"
+                                       /\ hist[t][j][1] = "lock" /\ hist[t][j][2] = "rel"
 (* Event: is_set / wait report the flag as it is at that moment; set/clear are atomic *)
 EventReportsFlag == [][\A t \in Threads :
       (act'.t = t /\ Len(ret'[t]) > Len(ret[t]) /\ OpOf(t) \in {"is_set", "ewait", "etwait"})
